@@ -53,6 +53,7 @@ type c16Env struct {
 		Handle(context.Context, *admissionv1.AdmissionRequest) (*admissionv1.AdmissionResponse, error)
 	}
 	jcs    []*execution.JobConfig
+	jcSnap []string // JSON of the cached JobConfigs as stored: the webhooks must never write to what they read from the cache
 	jobCfg *configv1alpha1.JobExecutionConfig
 }
 
@@ -93,7 +94,13 @@ func newC16Env(r *rand.Rand) *c16Env {
 		// what is stored went through the JobConfig mutating webhook itself
 		if out, ok := e.admitJobConfig(jc, nil); ok {
 			out.UID = jc.UID
+			if k == 3 {
+				// one JobConfig is stored the way it was submitted (from before the defaulting webhook was
+				// installed, or while it was not serving): the Job webhook defaults what it copies from it
+				out = jc
+			}
 			e.jcs = append(e.jcs, out)
+			e.jcSnap = append(e.jcSnap, normJSON(out))
 			_ = e.ctx.Inf.JC.Raw().Add(out)
 		}
 	}
@@ -248,6 +255,12 @@ func runC16(env *core.Env, res *core.Result) {
 			c16JobConfigCase(i, r, e, res)
 		} else {
 			c16JobCase(i, r, e, res)
+		}
+		for k, jc := range e.jcs {
+			if now := normJSON(jc); now != e.jcSnap[k] {
+				res.Violate(core.Violation{Prop: "C16", Sig: "cached-jobconfig-mutated", Msg: fmt.Sprintf("handling request %d changed the JobConfig %s held in the informer cache: was %s now %s", i, jc.Name, e.jcSnap[k], now), Case: i})
+				e.jcSnap[k] = now
+			}
 		}
 	}
 }
@@ -565,6 +578,9 @@ func c16JobCase(i int, r *rand.Rand, e *c16Env, res *core.Result) {
 	if r.Intn(3) == 0 {
 		c16JobUpdate(i, r, e, res, got)
 		classes = append(classes, "update")
+	} else if jc == nil && j.Spec.ConfigName == "" && r.Intn(2) == 0 {
+		c16UndefaultedUpdate(i, e, res, j, got)
+		classes = append(classes, "update-of-undefaulted")
 	}
 	if len(resp.Patch) > 0 {
 		sort.Strings(classes)
@@ -625,6 +641,45 @@ func c16JobUpdate(i int, r *rand.Rand, e *c16Env, res *core.Result, cur *executi
 	}
 	if len(resp.Patch) > 0 {
 		viol("update-of-defaulted-object-patched", "updating an already defaulted Job yields a patch: %s", resp.Patch)
+	}
+}
+
+// c16UndefaultedUpdate: the stored Job is the object as it was submitted (it got in while the webhook was not
+// serving); an update that only touches metadata must come back defaulted exactly like the create did.
+func c16UndefaultedUpdate(i int, e *c16Env, res *core.Result, submitted, created *execution.Job) {
+	viol := func(sig, f string, a ...interface{}) {
+		res.Violate(core.Violation{Prop: "C16", Sig: sig, Msg: fmt.Sprintf(f, a...), Case: i})
+	}
+	old := submitted.DeepCopy()
+	old.UID = "job-uid"
+	nw := old.DeepCopy()
+	if nw.Labels == nil {
+		nw.Labels = map[string]string{}
+	}
+	nw.Labels["edited"] = "1"
+	oraw, _ := json.Marshal(old)
+	nraw, _ := json.Marshal(nw)
+	req := &admissionv1.AdmissionRequest{Operation: admissionv1.Update, Kind: gvkJob, Name: nw.Name, Namespace: nw.Namespace, Object: runtime.RawExtension{Raw: nraw}, OldObject: runtime.RawExtension{Raw: oraw}}
+	resp, err := e.jobMut.Handle(context.Background(), req)
+	res.Evaluations++
+	if err != nil || !resp.Allowed {
+		return
+	}
+	out, err := applyPatch(nraw, resp)
+	if err != nil {
+		viol("patch-does-not-apply", "update of an undefaulted Job: patch does not apply: %v", err)
+		return
+	}
+	got := &execution.Job{}
+	_ = json.Unmarshal(out, got)
+	if got.Spec.Type != created.Spec.Type {
+		viol("update-not-defaulted", "update of an undefaulted stored Job: spec.type is %q, the create was defaulted to %q", got.Spec.Type, created.Spec.Type)
+	}
+	if normJSON(got.Spec.Template) != normJSON(created.Spec.Template) {
+		viol("update-not-defaulted", "update of an undefaulted stored Job: the template is %s, the create was defaulted to %s", normJSON(got.Spec.Template), normJSON(created.Spec.Template))
+	}
+	if normJSON(got.Spec.TTLSecondsAfterFinished) != normJSON(created.Spec.TTLSecondsAfterFinished) {
+		viol("update-not-defaulted", "update of an undefaulted stored Job: ttlSecondsAfterFinished is %s, the create was defaulted to %s", normJSON(got.Spec.TTLSecondsAfterFinished), normJSON(created.Spec.TTLSecondsAfterFinished))
 	}
 }
 
